@@ -38,13 +38,18 @@ RULE = ("#expr: (a) bounded-exhaustive: every ordered (parent, child, side) pair
         "non-trivial = AST with >=2 operators; call whose reference value is non-empty and differs from the trimmed "
         "subject; numeral with >=4 integer digits or a fraction; plural with n=1 or n>1")
 ASSUMPTIONS = [
-    "#expr primitives (operator tables unary_fns/binary_*_fns, looked up by operator name) are taken as given; only "
-    "precedence, associativity, parenthesisation-, spacing- and case-independence are decided",
+    "#expr primitives (operator tables unary_fns/binary_*_fns, looked up by operator name) are taken as given, EXCEPT the "
+    "operators whose value rule the manual spells out: mod (operands truncated, sign of the dividend), fmod, round (to "
+    "10^-trunc(y), halves away from zero; values within 1e-9 of a half but not on it are not decided: PHP pre-rounding) "
+    "and the 0/1 results of logical/comparison operators -- those use independent definitions",
+    "a prefix operator (function, sign) directly after binary e or a sign is an operand (2 e abs 1 = 2 e (abs 1)): checked "
+    "by a fixed grid, the general renderer still writes those parentheses",
     "expressions whose reference evaluation ends in a primitive error string (Divide by zero, sqrt of negative value) are "
     "only required not to print a number; expressions on which a primitive raises (math domain, overflow) are skipped (C05)",
-    "string functions are asserted on the documented domain only: later arguments without leading/trailing blanks, #pos "
-    "offset >= 0, #rpos without offset, #explode limit >= 0, #titleparts without ':' and with first <= 0 (compared modulo "
-    "the case of the first letter), urlencode without '~' and WIKI only over characters the manual shows",
+    "string functions: every parameter is stripped of surrounding blanks (manual, 'Stripping whitespace'); #pos "
+    "offset >= 0, #rpos without offset, #explode limit >= 0; #titleparts as the manual defines it (title normalised, split "
+    "at '/' only, first counted from 1) for [Help:|Talk:] + alphanumerics and '/'; urlencode QUERY = PHP urlencode, PATH = "
+    "rawurlencode, WIKI = wfUrlencode (keeps ;@$!*(),/~:), no doubled blanks in WIKI mode",
     "plural: default (English) rule, non-negative plain integers (with or without leading zeros), both forms given",
     "literal spellings: ASCII decimal numerals only; decimal digits of other scripts are evaluated by the unchanged tree "
     "(Python int/float accept them) and are not asserted; superscript/circled digits must give an expression error",
@@ -64,8 +69,8 @@ PADS = [None, "", "x", "ab", "abc", "é-"]
 REPLS = ["", "a", "X", "ab"]
 INTS = [str(i) for i in range(-10, 11)]
 RALPHA = list("abAB  é=:/.-_'ß1&#%+") + ["語", "𝔘", "Ж", "\n"]
-URL_ALPHA_Q = list("aZ0 :/é&=?%+#\"-_.'!*(),;@$") + ["語"]
-URL_ALPHA_W = list("aZ0 :/é&=?%+#\"-_.") + ["語"]
+URL_ALPHA_Q = list("aZ0 :/é&=?%+#\"-_.'!*(),;@$~") + ["語"]
+URL_ALPHA_W = list("aZ0 :/é&=?%+#\"-_.!*(),;@$~") + ["語"]
 PLURAL_NS = [0, 1, 2, 3, 5, 10, 11, 12, 21, 100, 101, 1000, 1001, 999999, 1000000]
 
 
@@ -89,10 +94,10 @@ def shards(tier, seed):
 
 
 def floors(tier):
-    # operator pairs: 18 x 18 x 2 = 648, minus (round, ^ | / | div, right) whose right operand is always a float
-    # (the round primitive raises on it: skipped); unary pairs: 16 x 18 x 3 = 864, minus the 9 float-valued
-    # functions as right operand of round
-    f = {"oracle.expr.rendering": 20000, "oracle.expr.ast": 5000, "sets.expr.pairs": 645, "sets.expr.unary_pairs": 850,
+    # operator pairs: 19 x 19 x 2 = 722 (fmod included); unary pairs: 16 x 19 x 3 = 912; a few combinations are
+    # always outside a primitive's domain with the literal sets used (skipped), hence the margins
+    f = {"oracle.expr.rendering": 20000, "oracle.expr.ast": 5000, "sets.expr.pairs": 715, "sets.expr.unary_pairs": 900,
+         "oracle.expr.documented-primitive-value": 700, "oracle.expr.prefix-operand": 50, "counters.str.trim-grid": 60,
          "sets.expr.renderings": 7, "oracle.expr.literal-spelling": 400, "sets.expr.literal_spellings": 6,
          "counters.plural.leading-zeros": 100, "sets.str.fns": 15, "sets.locales": 96, "sets.locale_settings": 8,
          "oracle.formatnum.forward": 96 * 84, "oracle.formatnum.reverse": 96 * 84, "oracle.formatnum.roundtrip": 96 * 84,
@@ -123,6 +128,7 @@ class Mon:
         self.idx = 0
         self.calls = 0
         self.shrink_memo = {}
+        self.error_op = None
         kw = {"lang_code": lang} if lang else {}
         self.cm = fresh(pages=[tmpl("1x", "{{{1}}}")], **kw)
         self.ctx = self.cm.__enter__()
@@ -130,7 +136,12 @@ class Mon:
         for t in (PF.binary_e_fns, PF.binary_pow_fns, PF.binary_mul_fns, PF.binary_add_fns, PF.binary_round_fns,
                   PF.binary_cmp_fns, PF.binary_and_fns, PF.binary_or_fns):
             binary.update(t)
-        self.prims = {"unary": dict(PF.unary_fns), "binary": binary}
+        # the implementation's tables, by operator name ...
+        self.impl_prims = {"unary": dict(PF.unary_fns), "binary": dict(binary)}
+        # ... except the operators whose VALUE rule is documented: independent definitions (vf.ref.c18_ref)
+        doc = dict(binary)
+        doc.update(DOC_PRIMS)
+        self.prims = {"unary": dict(PF.unary_fns), "binary": doc}
         w = {"expr_fn": PF.expr_fn, "formatnum_fn": PF.formatnum_fn, "_formatnum_reverse": PF._formatnum_reverse,
              "plural_fn": PF.plural_fn}
         for nm in ("generic_binary", "parse_unary", "parse_unary_fn", "parse_atom", "parse_binary_e", "parse_binary_pow",
@@ -177,17 +188,23 @@ class Mon:
             self.ctx.start_page("Pg")
             return "raises", s
 
-    def expected(self, ast):
+    def expected(self, ast, prims=None):
         """(text, is_error) or raises X.Skip"""
         try:
             with cpu_guard(10):
-                return X.fmt(X.evaluate(ast, self.prims)), False
+                return X.fmt(X.evaluate(ast, prims or self.prims)), False
+        except X.MissingOperator as e:
+            raise X.Skip("operator %s missing" % e)
         except X.PrimitiveError as e:
-            return str(e), True
+            self.error_op = e.args[1] if len(e.args) > 1 else None
+            return str(e.args[0]), True
         except CpuBudget:
             raise X.Skip("reference evaluation over budget")
         except RecursionError:
             raise X.Skip("recursion")
+
+
+DOC_PRIMS = {"mod": R.expr_mod, "fmod": R.expr_fmod, "round": R.expr_round}
 
 
 def is_number(s):
@@ -328,8 +345,21 @@ def expr_case(mon, obs, ast, rng, gen):
             obs.count("expr.error_expected.other_text")
     if all(r[0] for r in results.values()):
         return
+    sigs = blame_primitive(mon, ast, results)
+    if sigs:
+        name = [k for k in RENDERINGS if not results[k][0]][0]
+        for sig in sigs:            # several operators needed to explain it: one report per operator
+            obs.violation(sig, "%r -> %r, documented value %r" % (texts[name], results[name][2], exp),
+                          {"family": "expr", "ast": ast, "texts": {name: texts[name]}})
+        return
     if iserr:
         name = [k for k in RENDERINGS if not results[k][0]][0]
+        exp, _ = mon.expected(ast)
+        if mon.error_op in DOC_PRIMS:      # the documented rule of that operator says "no value" (e.g. 3 mod 0.1)
+            obs.violation("expr/primitive-value/%s/result-not-documented" % mon.error_op,
+                          "%r -> %r, documented: %s" % (texts[name], results[name][2], exp),
+                          {"family": "expr", "ast": ast, "texts": {name: texts[name]}})
+            return
         obs.violation("expr/primitive-error-lost:%s/got=value" % exp,
                       "%r printed %r although the expression has no value (%s)" % (texts[name], results[name][2], exp),
                       {"family": "expr", "ast": ast, "texts": texts})
@@ -339,6 +369,44 @@ def expr_case(mon, obs, ast, rng, gen):
     if detail.get("spelling"):
         case["texts"] = {"min+spelling": detail["minimal"]}
     obs.violation(sig, "%s: expected %r; %s" % (canon[:200], exp, json.dumps(detail, ensure_ascii=False)[:400]), case)
+
+
+def binops_in(ast):
+    out, stack = set(), [ast]
+    while stack:
+        a = stack.pop()
+        if a[0] == "b":
+            out.add(a[1])
+        stack.extend(c for _, c in X.children(a))
+    return out
+
+
+def blame_primitive(mon, ast, results):
+    """A disagreement that disappears when ONE operator with a documented value rule (mod, fmod, round) is evaluated
+    with the implementation's own primitive instead of the documented definition is that primitive's defect, not a
+    precedence / associativity one: one signature per operator."""
+    ops = sorted(binops_in(ast) & set(DOC_PRIMS))
+    if not ops:
+        return None
+    missing = [o for o in ops if o not in mon.impl_prims["binary"]]
+    if missing:
+        return ["expr/primitive-value/%s/documented-operator-not-implemented" % missing[0]]
+    for cand in [[o] for o in ops] + ([ops] if len(ops) > 1 else []):
+        b = dict(mon.prims["binary"])
+        for o in cand:
+            b[o] = mon.impl_prims["binary"][o]
+        try:
+            exp2, iserr2 = mon.expected(ast, {"unary": mon.prims["unary"], "binary": b})
+        except X.Skip:
+            # with the implementation's primitive the expression leaves a function's domain (e.g. asin of a large
+            # number): explained when the real code did not print a number either
+            if all(not (st == "ok" and is_number(got.strip())) for (_, st, got) in results.values()):
+                return ["expr/primitive-value/%s/result-not-documented" % o for o in cand]
+            continue
+        if all((st == "ok" and got == exp2) if not iserr2 else not (st == "ok" and is_number(got.strip()))
+               for (_, st, got) in results.values()):
+            return ["expr/primitive-value/%s/result-not-documented" % o for o in cand]
+    return None
 
 
 def note_pairs(obs, ast):
@@ -374,6 +442,11 @@ def call_text(fn, args, deco=None):
         for i in INT_POS.get(fn, ()):
             if i < len(a) and a[i] != "":
                 a[i] = pads[1] + a[i] + pads[0]
+    if deco.get("later-arg-blanks"):
+        pads = deco["later-arg-blanks"]
+        for i in range(1, len(a)):
+            if i not in INT_POS.get(fn, ()) and a[i] != "":
+                a[i] = pads[0] + a[i] + pads[1]
     if deco.get("via"):
         a[0] = "{{1x|1=" + a[0] + "}}"
     return "{{" + name + ":" + "|".join(a) + "}}"
@@ -384,8 +457,6 @@ def str_equal(fn, got, exp):
     # unless the call starts a line -- both readings are accepted at the start of the text
     if exp.startswith(("*", "#", ":", ";", "{|")) and got == "\n" + exp:
         return True
-    if fn == "#titleparts":
-        return got[:1].upper() + got[1:] == exp[:1].upper() + exp[1:]
     return got == exp
 
 
@@ -425,7 +496,13 @@ def shrink_args(mon, fn, args, max_tests=250):
     ints = INT_POS.get(fn, ())
     frozen = set()
     if fn == "#titleparts":              # prefer a plain title A/b/c... as the witness
-        for t in ("A", "A/b", "A/b/c", "A/b/c/d", "A/b/c/d/e"):
+        canon = ["A", "A/b", "A/b/c", "A/b/c/d", "A/b/c/d/e"]
+        if args[0].strip().startswith(R.TP_NAMESPACES):
+            canon += ["Help:A", "Help:A/b", "Help:A/b/c", "Help:A/b/c/d"]
+        page = args[0].strip().split(":", 1)[-1]
+        if page[:1] != page[:1].upper():
+            canon += ["a", "a/b", "a/b/c"]
+        for t in canon:
             if fails([t] + args[1:]):
                 args[0] = t
                 frozen.add(0)
@@ -500,6 +577,10 @@ def _charclass(s):
             cls.add("colon-slash")
         elif c == "%":
             cls.add("percent")
+        elif c == "~":
+            cls.add("tilde")
+        elif c in ";@$!*(),":
+            cls.add("sub-delims")
         elif c == "+":
             cls.add("plus")
         elif ord(c) > 127:
@@ -549,12 +630,19 @@ def features(fn, args, exp, got):
     if fn == "#titleparts":
         k, f = R._int(a[1]), R._int(a[2])
         n = len(R._split(s, "/")) if s else 0
+        # exclusive classes, in the order the shrinker removes them
+        if s.startswith(R.TP_NAMESPACES):
+            return ["namespace-prefix"]
+        if f > 0:
+            return ["first=pos"]
+        if s[:1] != s[:1].upper() and got[:1].upper() + got[1:] == exp:
+            return ["lowercase-initial"]
         c = "count=" + _sign(a[1])
         if k < 0 and f == 0:
             c += ":strips-all" if -k >= n else ":strips-some"
         return [c, "first=" + _sign(a[2])]
     if fn == "urlencode":
-        return ["mode=" + (a[1] or "default"), "chars=" + _charclass(s)]
+        return ["mode=" + (a[1] or "QUERY"), "chars=" + _charclass(s)]
     if fn == "#urldecode":
         return ["chars=" + _charclass(s)]
     # #len, lc, uc, lcfirst, ucfirst
@@ -663,14 +751,35 @@ def grid(p):
                 yield "padright", mkargs(s, cnt, pad)
     for s in strings(TP_ALPHA, p["L_tp"]):
         for num in opt_ints():
-            for first in [None] + INTS[:11]:
+            for first in [None] + INTS[:16]:
                 yield "#titleparts", mkargs(s, num, first)
+    # a namespace prefix belongs to the first segment
+    for ns in R.TP_NAMESPACES:
+        for s in strings(TP_ALPHA, p["L_tp"] - 1):
+            for num in opt_ints():
+                for first in [None] + INTS[5:16]:
+                    yield "#titleparts", mkargs(ns + s, num, first)
     for mode, alpha in ((None, URL_ALPHA_Q), ("QUERY", URL_ALPHA_Q), ("PATH", URL_ALPHA_Q), ("WIKI", URL_ALPHA_W)):
         for s in strings(alpha, p["L_url"]):
             yield "urlencode", mkargs(s, mode)
     for s in strings(URL_ALPHA_Q, p["L_url"]):
         yield "#urldecode", [R.f_urlencode(s, "QUERY")]
         yield "#urldecode", [R.f_urlencode(s, "PATH")]
+
+
+# every parameter is stripped: blanks around the search term / delimiter / replacement / pad / mode
+TRIM_CASES = [("#pos", ["abcb", "b"]), ("#pos", ["a b c", "b c", "1"]), ("#rpos", ["abcb", "b"]), ("#replace", ["abc", "b", "X"]),
+              ("#replace", ["a-b-c", "-", "+ +"]), ("#explode", ["a,b,c", ",", "1"]), ("#explode", ["a--b--c", "--", "-1", "2"]),
+              ("padleft", ["xyz", "5", "_"]), ("padleft", ["xyz", "7", "ab"]), ("padright", ["xyz", "5", "_"]),
+              ("padright", ["xyz", "7", "ab"]), ("urlencode", ["a b/c", "PATH"]), ("urlencode", ["a b/c", "WIKI"]),
+              ("urlencode", ["a b/c", "QUERY"])]
+TRIM_PADS = [(" ", " "), (" ", ""), ("", " "), ("\n", "\n"), ("  ", "\t")]
+
+
+def trim_grid():
+    for fn, args in TRIM_CASES:
+        for pads in TRIM_PADS:
+            yield fn, list(args), {"later-arg-blanks": pads}
 
 
 def rstring(rng, alpha, maxlen=8):
@@ -700,7 +809,8 @@ def random_str_case(rng):
     al = RALPHA
     if fn == "#titleparts":
         s = rstring(rng, ["A", "b", "/", "1", "/", "Cd", "é"], 8)
-        args = mkargs(s, rint(rng), rng.choice([None, "0"] + INTS[:10]))
+        s = rng.choice(["", "", "", "Help:", "Talk:"]) + s
+        args = mkargs(s, rint(rng), rint(rng))
     elif fn in ("lc", "uc", "lcfirst", "ucfirst"):
         args = [rstring(rng, list("aBcD  é1-") + ["Ж", "ж", "É"], 8)]
     elif fn == "urlencode":
@@ -732,6 +842,8 @@ def random_str_case(rng):
         deco["case"] = rng.choice([1, 2])
     if rng.random() < 0.2 and "|" not in args[0]:
         deco["via"] = 1
+    if rng.random() < 0.15 and fn in ("#pos", "#rpos", "#replace", "#explode", "padleft", "padright", "urlencode"):
+        deco["later-arg-blanks"] = rng.choice(TRIM_PADS)
     return fn, args, (deco or None)
 
 
@@ -908,6 +1020,10 @@ def run_shard(spec):
     # ---- #expr, a whole expression that is one literal, in every spelling and wrapping (shard 1 only: a fixed grid)
     if idx == 1 % nsh:
         literal_cases(mon, obs)
+    # ---- #expr, operators with a documented value rule and prefix operators in operand position (fixed grids)
+    if idx == 2 % nsh:
+        documented_primitive_cases(mon, obs)
+        prefix_operand_cases(mon, obs)
     # ---- #expr, random part
     for i in range(p["expr_rand"]):
         d = 2 + (i % 4)
@@ -916,6 +1032,9 @@ def run_shard(spec):
     for i, (fn, args) in enumerate(grid(p)):
         if (i + i // nsh) % nsh == idx:          # rotating slices: every shard sees every function / argument class
             str_case(mon, obs, fn, args, None, "grid")
+    if idx == 3 % nsh:
+        for fn, args, deco in trim_grid():
+            str_case(mon, obs, fn, args, deco, "trim-grid")
     obs.count("grid.parts_completed")
     # ---- string functions, random hostile part
     for i in range(p["str_rand"]):
@@ -997,6 +1116,76 @@ def primitive_cases(mon, obs):
         if st != "ok" or got.strip() != e:
             obs.violation("expr/primitive-value/logical/result-not-documented-0-or-1", "%s -> %r, expected %s" % (text, got, e),
                           {"family": "primitive", "text": text, "exp": e})
+
+
+# =============================================================================== documented value rules of mod / fmod / round
+PRIM_MOD_OPERANDS = ["-8", "-7", "-3", "-1", "0", "1", "2", "3", "7", "8", "30", "2.7", "3.2", "8.9", "-8.9", "0.5", "-2.5"]
+PRIM_ROUND_X = ["0.5", "-0.5", "1.5", "2.5", "-2.5", "4.5", "-4.5", "0.125", "0.375", "1234.5678", "-1234.5678", "25", "-25",
+                "35", "1250", "7", "0", "1/3", "1/6", "-1/3", "3/4", "1/2", "-1/2", "8.99999/9", "2+0.5"]
+PRIM_ROUND_D = ["0", "1", "2", "5", "-1", "-2", "2.3", "3.7", "-1.5"]
+
+
+def documented_primitive_cases(mon, obs):
+    def one(op, a, b):
+        text = "{{#expr:%s %s %s}}" % (a, op, b)
+        try:
+            exp = DOC_PRIMS[op](eval(a), eval(b))
+        except ValueError:
+            obs.count("expr.primitive-grid.not-settled-by-documentation")
+            return
+        st, got = mon.expand(text)
+        obs.check("expr.documented-primitive-value")
+        obs.case(text, nontrivial=True)
+        if isinstance(exp, str):
+            ok = not (st == "ok" and is_number(got.strip()))
+        else:
+            want = X.fmt(exp)
+            ok = st == "ok" and (got == want or (want == "0" and got == "-0"))
+        if not ok:
+            what = "documented-operator-not-implemented" if op not in mon.impl_prims["binary"] else "result-not-documented"
+            obs.violation("expr/primitive-value/%s/%s" % (op, what),
+                          "%s -> %r, documented value %s" % (text, got, exp if isinstance(exp, str) else X.fmt(exp)),
+                          {"family": "docprim", "op": op, "a": a, "b": b})
+    for op in ("mod", "fmod"):
+        for a in PRIM_MOD_OPERANDS:
+            for b in PRIM_MOD_OPERANDS:
+                one(op, a, b)
+    for a in PRIM_ROUND_X:
+        for b in PRIM_ROUND_D:
+            one("round", a, b)
+
+
+# A prefix operator (function or sign) is an operand wherever an operand is expected: "2 e abs 1" can only mean
+# 2 e (abs 1); the parentheses are redundant.  (The general renderer always writes them: conservative reading of
+# the ladder, so this class needs its own small grid.)
+PREFIX_ARG = {"sqrt": "4", "ln": "1", "exp": "0"}
+
+
+def prefix_operand_cases(mon, obs):
+    for f in X.UNARY_FNS:
+        x = PREFIX_ARG.get(f, "1")
+        inner = ("u", f, ("n", x))
+        for tmpl, ast in (("2 e %s %s", ("b", "e", ("n", "2"), inner)),
+                          ("2 e - %s %s", ("b", "e", ("n", "2"), ("neg", inner))),
+                          ("- %s %s", ("neg", inner)),
+                          ("3 ^ - %s %s", ("b", "^", ("n", "3"), ("neg", inner))),
+                          ("2 e %s %s * 3", ("b", "*", ("b", "e", ("n", "2"), inner), ("n", "3")))):
+            text = tmpl % (f, x)
+            try:
+                exp, iserr = mon.expected(ast)
+            except X.Skip:
+                continue
+            if iserr:
+                continue
+            ok, st, got = expr_ok(mon, text, exp, False)
+            ok2, _, got2 = expr_ok(mon, X.render(ast, "full"), exp, False)
+            obs.check("expr.prefix-operand")
+            obs.case("prefix:" + text, nontrivial=True)
+            if ok2 and not ok:
+                after = "e" if " e " in text else ("sign" if text.startswith("-") else "pow")
+                obs.violation("expr/prefix-operator-as-operand-after-%s/%s" % (after, got_class(st, got)),
+                              "%r -> %r but %r -> %r" % (text, got, X.render(ast, "full"), got2),
+                              {"family": "prefix", "text": text, "ast": ast})
 
 
 # =============================================================================== one-literal expressions
@@ -1108,6 +1297,19 @@ def replay(case):
         st, got = mon.expand(case["text"])
         mon.close()
         return {"violations": [] if (st == "ok" and got.strip() == case["exp"]) else ["expr/primitive-value"], "got": got, "expected": case["exp"]}
+    if fam in ("docprim", "prefix"):
+        mon = Mon(obs)
+        if fam == "docprim":
+            exp = DOC_PRIMS[case["op"]](eval(case["a"]), eval(case["b"]))
+            st, got = mon.expand("{{#expr:%s %s %s}}" % (case["a"], case["op"], case["b"]))
+            bad = (st == "ok" and is_number(got.strip())) if isinstance(exp, str) else not (st == "ok" and got in (X.fmt(exp), "-" + X.fmt(exp)))
+        else:
+            ast = X.to_tuple(case["ast"])
+            exp, _ = mon.expected(ast)
+            ok, st, got = expr_ok(mon, case["text"], exp, False)
+            bad = not ok
+        mon.close()
+        return {"violations": ["documented value"] if bad else [], "got": got, "expected": str(exp)}
     if fam == "formatnum":
         loc = dict(locales())[case["lang"]]
         mon = Mon(obs, lang=case["lang"])
